@@ -50,6 +50,8 @@ def plan(tier, seed):
         shards.append(dict(name=f"small{p}", kind="small", L=L, part=p, parts=parts))
     n = 3 if q else 12
     for i in range(n):
+        # whole streams as bases of the fault enumeration: faults in the first, a middle and the very last message
+        shards.append(dict(name=f"streambase{i}", kind="stream", n=4 if q else 40, max_pairs=3))
         shards.append(dict(name=f"mutate{i}", kind="mutate", n=300 if q else 6000, start=i, step=n))
         shards.append(dict(name=f"stream{i}", kind="badstream", n=25 if q else 400))
         shards.append(dict(name=f"random{i}", kind="random", n=400 if q else 8000, start=i, step=n))
@@ -196,7 +198,7 @@ def bad_streams(rng, n):
     for s, msgs in cases.stream_cases(rng, n, max_pairs=3):
         if len(msgs) < 3:
             continue
-        k = rng.randrange(len(msgs) - 1)
+        k = rng.randrange(len(msgs))  # any message, the last one included (what follows a fault there is the end of the input)
         m = msgs[k]
         mref = m.ref()
         if mref.outcome.kind != "ok":
@@ -220,6 +222,13 @@ def bad_streams(rng, n):
             v = rng.choice((0, 2, 6, 9))
             f = cases.Case("Command", m.d[:2] + v.to_bytes(4, "big") + m.d[6:], origin="bad-stream",
                            fault=dict(kind="size", field=".commandSize", fkind="message", change=f"={v}", old=len(m.d), new=v), sig=("size", "Command", None, "message", ".commandSize", f"={v}"))
+        if rng.random() < 0.3:
+            # an out-of-range value instead: in the last constrained field of the message
+            vf = list(cases.value_faults(m, mref, rng, limit=None))
+            if vf:
+                f = vf[-1 - rng.randrange(min(3, len(vf)))]
+                f.fault = dict(kind="size", field=f.fault["field"], fkind="value", change=f.fault["change"])
+                f.sig = ("size", m.t, m.cc, "value", f.fault["field"], f.fault["change"])
         data = b"".join(x.d for x in msgs[:k]) + f.d + b"".join(x.d for x in msgs[k + 1 :])
         yield cases.Case("CommandResponseStream", data, origin="bad-stream",
                          fault=dict(kind="stream-size", message=k, of=len(msgs), **{kk: vv for kk, vv in f.fault.items() if kk != "kind"}),
